@@ -50,7 +50,7 @@ PROPS["C01"] = {
     "required_classes": ["acknowledgements_verified_in_a_crash_image", "crash_images", "images_followed_by_suffix_workload", "recrash_images", "second_epoch_crash_images", "crash_images_of_nearly_full_disks"],
     "units": [
         {"test": "^TestC01Crash$", "quick": {"checks": 5, "shards": 2, "procs": 8, "timeout": 600},
-         "thorough": {"checks": 24, "shards": 4, "procs": 4, "timeout": 7200}},
+         "thorough": {"checks": 16, "shards": 4, "procs": 4, "timeout": 7200}},
         {"test": "^TestC01Full$", "quick": {"checks": 40, "shards": 4, "steps": 40}, "thorough": {"checks": 500, "shards": 8, "steps": 60}},
         {"test": "^TestC01ConcAck$", "quick": {"checks": 40, "shards": 4}, "thorough": {"checks": 1500, "shards": 8, "timeout": 7200}},
     ],
@@ -67,7 +67,7 @@ PROPS["C07"] = {
     "units": [
         {"test": "^TestRegressC07$", "norapid": True, "quick": {"shards": 1}, "thorough": {"shards": 1}},
         {"test": "^TestC07Crash$", "quick": {"checks": 5, "shards": 2, "procs": 8, "timeout": 600},
-         "thorough": {"checks": 24, "shards": 4, "procs": 4, "timeout": 7200}},
+         "thorough": {"checks": 16, "shards": 4, "procs": 4, "timeout": 7200}},
         {"test": "^TestC07CommitWindow$", "norapid": True, "quick": {"shards": 4}, "thorough": {"shards": 4}},
         {"test": "^TestC07ConcAck$", "quick": {"checks": 40, "shards": 4}, "thorough": {"checks": 1500, "shards": 8, "timeout": 7200}},
     ],
@@ -106,7 +106,7 @@ PROPS["C04"] = {
         {"test": "^TestC04Full$", "quick": {"checks": 40, "shards": 4, "steps": 40}, "thorough": {"checks": 500, "shards": 8, "steps": 60}},
         {"test": "^TestC04Enum$", "norapid": True, "quick": {"shards": 16}, "thorough": {"shards": 16, "timeout": 3600}},
         {"test": "^TestC04Crash$", "quick": {"checks": 5, "shards": 2, "procs": 5, "timeout": 600},
-         "thorough": {"checks": 24, "shards": 4, "procs": 4, "timeout": 7200}},
+         "thorough": {"checks": 12, "shards": 4, "procs": 4, "timeout": 7200}},
     ],
 }
 
